@@ -23,9 +23,9 @@ m = dict(version=1, setup_cmd="./setup.sh",
          hooks=dict(guard="THERMOSTEAM_VERIF", enable="none needed: all instrumentation is run-time namespace rebinding from /verif (no hook commits in /repo)",
                     baseline_off_cmd=BASE, source_commits=[], add_only=True),
          engines=[dict(name="sx", path="engine/sx", serves_properties=sorted(CHECKS),
-                       kind_free_text="contract-based deductive checking: sidecar contracts (contracts/Cxx_*.py) on the real thermosteam functions; VC generation by symbolic execution of the imported functions under CPython with z3-backed real leaves (all values, enumerated structure), VCs discharged by z3; native replay of counter-models"),
+                       kind_free_text="contract-based deductive checking: sidecar contracts (contracts/Cxx_*.py) on the real thermosteam functions; VC generation by symbolic execution of the imported functions under CPython with z3-backed real leaves (all values, enumerated structure), VCs discharged by z3 (a sample per configuration re-checked by cvc5); native replay of counter-models"),
                   dict(name="vcg", path="engine/vcg", serves_properties=["C09", "C18"],
-                       kind_free_text="AST -> SMT verification-condition generators for unbounded structure: sparse kernels (dict = domain/value arrays, pointwise loop summaries; 70 kernels, arbitrary vector size; finite-set lemma schema proved in Lean 4 + Mathlib, lemmas/FinsetCard.lean) and the flowsheet heap (Burstall-Bornat memory model, quantified well-formedness invariant, inductive loop invariants, modular application of proved contracts at call sites; 26 operations over an arbitrary heap); z3 (E-matching, MBQI); finite-domain models replayed on real objects")],
+                       kind_free_text="AST -> SMT verification-condition generators for unbounded structure: sparse kernels (dict = domain/value arrays, pointwise loop summaries; 70 kernels, arbitrary vector size; finite-set lemma schema proved in Lean 4 + Mathlib, lemmas/FinsetCard.lean) and the flowsheet heap (Burstall-Bornat memory model, quantified well-formedness invariant, inductive loop invariants, modular application of proved contracts at call sites; 26 operations over an arbitrary heap); z3 (E-matching, MBQI), every discharged VC re-checked by cvc5 (engine/vcg/second.py); finite-domain models replayed on real objects")],
          checks=[CHECKS[p] for p in props if p in CHECKS],
          not_applicable=[dict(property_id=p, reason=NA[p]) for p in props if p in NA],
          notes="See DESIGN.md. Exit codes: 0 held, 1 violation (VIOLATION line + replay file), 2 undecided, 3 checker error.")
